@@ -11,6 +11,7 @@ import GstVerif.NF.Driver
 import GstVerif.Cow.Driver
 import GstVerif.Cov.Driver
 import GstVerif.Trans.Driver
+import GstVerif.Mesh.Driver
 /-
   gstmodel: line-protocol driver.  One request per input line:
       <model> <op> <args…> => <implementation's answer…>
@@ -28,7 +29,7 @@ implementation: never a legal answer of the numerical operations of the models b
 def nonFinite (t : String) : Bool :=
   (t.splitOn ",").any fun x => x = "nan" || x = "+inf" || x = "-inf"
 
-def numericModels : List String := ["g", "p", "m", "k", "r", "n", "v", "s", "t"]
+def numericModels : List String := ["g", "p", "m", "k", "r", "n", "v", "s", "t", "u"]
 
 def dispatch0 (req impl : List String) : String :=
   match req with
@@ -45,6 +46,7 @@ def dispatch0 (req impl : List String) : String :=
   | "o" :: args => Cow.handle args impl
   | "s" :: args => Cov.handle args impl
   | "t" :: args => Trans.handle args impl
+  | "u" :: args => Mesh.handle args impl
   | _ => "bad-op"
 
 /-- a request of a numerical model which its handler cannot parse because the implementation
